@@ -1,8 +1,97 @@
 import Ypv.Drv.Codec
-/-! Driver handler for C11 (stub: replaced by the module that models C11) -/
+import Ypv.Drv.C04
+import Ypv.Drv.C05
+import Ypv.Model.MergeAt
+/-! Driver handler for C11 (a merge aimed at a YAML Path).
+
+* `C11.mergeat` `{"l": doc, "r": doc, "cfg": CFG, "plan": {"targets": [addr…]} | {"segs": [pseg…]},
+  "at": [key…]?, "lrules": [[[key…], name]]?, "lkeys": [[[key…], text]]?}` ↦
+  `{"model": {"ok": doc} | {"err": class},
+    "targets": [{"addr": addr, "fresh": bool, "c05": {"ok": doc} | {"err": class} | null}]}`
+  — `model` is `mergeAt`; `targets` lists, for every target of the plan, what the C05 root merge
+  `mergeWith` makes of the node that stood there in `l` and `r` (null when nothing stood there).
+  `CFG` as in `Drv/C05.lean`; `lrules` / `lkeys` are rule paths written against the LEFT document
+  as lists of plain key names, re-based on the merge path `at` by the model (`rebaseRules`).
+* `C11.rebase` `{"path": [key…], "at": [key…]}` ↦ `{"keys": [key…]}` (`stripPrefix`).
+-/
 namespace Ypv.Drv.C11
 open Lean (Json)
+open Ypv Ypv.Drv Ypv.Merge Ypv.MergeAt
 
-def handle (_op : String) (_j : Json) : Except String Json := throw "C11: driver not implemented yet"
+def aerrToJson : AErr → Json
+  | .merge => "merge"
+  | .config => "config"
+  | .ypath k => errToJson (.ypath k)
+  | .crash k => errToJson (.crash k)
+  | .outOfModel => "outOfModel"
+
+def outToJson : Except AErr Node → Json
+  | .ok n => Json.mkObj [("ok", nodeToJson n)]
+  | .error e => Json.mkObj [("err", aerrToJson e)]
+
+def strsOf (j : Json) : Except String (List Str) := do
+  match j with
+  | .arr xs => xs.toList.mapM (fun e => match e with
+      | .str s => pure (s2l s)
+      | _ => throw "key name expected")
+  | _ => throw "list of key names expected"
+
+def optStrs (j : Json) (k : String) : Except String (List Str) :=
+  match j.getObjVal? k with
+  | .ok v => strsOf v
+  | .error _ => pure []
+
+def planOf (j : Json) : Except String Plan := do
+  let p ← j.getObjVal? "plan"
+  match p.getObjVal? "targets" with
+  | .ok _ => pure (.existing (← C04.addrsOf p "targets"))
+  | .error _ => pure (.create (← C04.psegsOf p "segs"))
+
+def cfgOf (j : Json) : Except String Config := do
+  let cfg ← C05.getCfg j
+  let at_ ← optStrs j "at"
+  let lrules ← match j.getObjVal? "lrules" with
+    | .ok (.arr xs) => xs.toList.mapM (fun e => do
+        match e with
+        | .arr #[p, .str n] => pure (← strsOf p, C05.ruleNameOf n)
+        | _ => throw "lrule: [[key…], name] expected")
+    | _ => pure []
+  let lkeys ← match j.getObjVal? "lkeys" with
+    | .ok (.arr xs) => xs.toList.mapM (fun e => do
+        match e with
+        | .arr #[p, .str k] => pure (← strsOf p, s2l k)
+        | _ => throw "lkey: [[key…], text] expected")
+    | _ => pure []
+  pure { cfg with rules := rebaseRules at_ lrules ++ cfg.rules,
+                  keys := rebaseRules at_ lkeys ++ cfg.keys }
+
+def c05Json (cfg : Config) (l r : Node) (a : Addr) (fresh : Bool) : Json :=
+  Json.mkObj [("addr", addrToJson a), ("fresh", .bool fresh),
+    ("c05", match l.get? a with
+      | some old => C05.outToJson (mergeWith cfg old r)
+      | none => Json.null)]
+
+def targetsJson (cfg : Config) (l r : Node) : Plan → Json
+  | .existing ts => Json.arr (ts.map (fun a => c05Json cfg l r a false)).toArray
+  | .create segs =>
+    let start := if isNull l then buildNextN segs r else l
+    match createPathN r start segs with
+    | .ok c => Json.arr #[c05Json cfg l r c.addr c.fresh]
+    | .error _ => Json.arr #[]
+
+def handle (op : String) (j : Json) : Except String Json := do
+  match op with
+  | "mergeat" =>
+    let l ← nodeOfJson (← j.getObjVal? "l")
+    let r ← nodeOfJson (← j.getObjVal? "r")
+    let cfg ← cfgOf j
+    let plan ← planOf j
+    pure (Json.mkObj [("model", outToJson (mergeAt cfg l plan r)),
+                      ("targets", targetsJson cfg l r plan)])
+  | "rebase" =>
+    let p ← strsOf (← j.getObjVal? "path")
+    let a ← strsOf (← j.getObjVal? "at")
+    pure (Json.mkObj [("keys", Json.arr ((stripPrefix p a).map (fun k => Json.str (l2s k))).toArray)])
+  | _ => throw s!"C11: unknown op {op}"
 
 end Ypv.Drv.C11
